@@ -405,6 +405,16 @@ RetViol(r) ==
       b \in { b \in begun : \E k \in 1..Len(ExpCmds(b.t)) :
                  /\ ExpCmds(b.t)[k].k = "dsh" /\ ~IsDedup(b.t)
                  /\ Reached(b.p, b.t, k) /\ PKey(b.p, b.t, ExpCmds(b.t)[k]) \notin KeysOf(ended) } }
+  \cup
+  \* a deferred task call that was reached has run: the called task (unguarded, without deps, not shared, its
+  \* first entry a command) has started at the path of that call
+  { Viol("C14", "defer-call-not-run") :
+      b \in { b \in begun : ~Cyclic /\ ~IsDedup(b.t) /\ \E k \in 1..Len(ExpCmds(b.t)) :
+                 LET e == ExpCmds(b.t)[k] IN
+                 /\ e.k = "dcall" /\ Reached(b.p, b.t, k)
+                 /\ ~IsDedup(e.cs.t) /\ T(e.cs.t).guard = "none" /\ ExpDeps(e.cs.t) = <<>>
+                 /\ ExpCmds(e.cs.t) # <<>> /\ ExpCmds(e.cs.t)[1].k \in {"sh", "dsh"}
+                 /\ ~\E x \in begun : IsPrefix(Append(b.p, e.cs.seg), x.p) } }
 
 \* C07c witness: a single root whose deps are k distinct plain tasks (no deps, no guard, first
 \* entry a shell command): before anything is released, min(k, N) of them are executing.
